@@ -168,6 +168,22 @@ def run(rep, tier, seed, model_ok=True, effort=1):
             res = impl_parse(impl, s, pat) if s else "PatternError"
             parse_items.append("(%s,%s,%s)" % (cs(s or ""), cs(pat), v2gen.cpres_vinfo(res)))
             parse_meta.append((s, pat, res))
+    # boundary days of the calendar for EVERY sweep pattern: last and first days of leap / common / century / 400-year years, leap days,
+    # the first and last representable years
+    special = [dt.date(y, 12, 31) for y in (1000, 1600, 1900, 2000, 2004, 2100, 2400, 9999)] + [dt.date(y, 1, 1) for y in (1000, 2000, 2001, 2400, 9999)] + \
+              [dt.date(y, 2, 29) for y in (1600, 2000, 2004, 2400)] + [dt.date(y, 12, 30) for y in (2000, 2400)] + [dt.date(2100, 2, 28), dt.date(2100, 3, 1)]
+    for d in special:
+        c = impl.v2version.cal_info(d)
+        v = base._replace(**c._asdict())
+        for pat in sweep_pats:
+            if d.year < 2001 or d.year > 2099:
+                if any(x in pat for x in ("YY.", "0Y.", "GG.", "0G.")) and not pat.startswith(("YYYY", "GGGG")):
+                    continue      # two-digit year parts are claimed for 2001..2099
+            if (v.week_w == 53 and "W" in pat) or (v.week_u == 53 and "U" in pat):
+                continue          # the recorded week-53 finding
+            s = roundtrip_oracle(rep, impl, v, pat, dict(wf=True))
+            rep.case((pat, s, "special-day"), nontrivial=bool(s))
+            rep.count("special-days")
     if model_ok:
         bad, errs = common.coq_eval("c02comp", HDR, "list N * option (list N)",
                                     "fun '(p, e) => match e with Some x => eqb_str (compile_pattern_str (normalize_pattern p p)) x | None => match compile_pattern_re (normalize_pattern p p) with None => true | Some _ => false end end",
